@@ -26,6 +26,26 @@ PROVED = {
 'C19': 'full incl. termination and no overflow of root+bit',
 'C20': '8-bit tables, oracle soundness, integral exactness for every 8/16/32-bit format, below-range inputs; constants proved against the true reals for 1342 of 1386 entries (partial: 16/32-bit exp2 by sweep, 44 γ entries numerical)',
 }
+TRUSTED = '''
+### 12.6 Trusted base as built (amends section 5)
+
+* Kernel and axioms as in section 5; every check re-audits `#print axioms` for each property theorem and
+  greps the import closure for forbidden constructs; the thorough tier runs `leanchecker`.
+* Mathlib is used by exactly one proof file, `CnlProofs/NumbersReal.lean` (four single modules: bounds of
+  pi and exp, the log series, harmonic-number enclosures of the Euler-Mascheroni constant); everything
+  else, including the floating-point theory (`FloatFaithful`, `ScaledFloat`, `WideFloat*`, `RoundCvt`),
+  is core Lean.
+* Now modelled and proved rather than excluded: Karatsuba multiplication of `uintwide_t` (transcribed with
+  its scratch memory), wide_integer <-> floating point, mixed-width wide comparisons, the scanner of
+  `parse.h`, `to_chars_capacity` per base, `descale` for unsigned significands.
+* Still modelled by correspondence only (no theorem): 16/32-bit `exp2` accuracy (dense/exhaustive sweeps
+  against a proved-sound oracle), the scaled `to_chars` capacity for negative exponents, float ->
+  unsigned __int128 overflow tests, the to-float two-neighbour bracket of wide_integer within a factor 2
+  of the overflow threshold, `make_fraction` outside its refuted classes.
+* Not modelled: `std::gcd`, `std::hash<int>` (arbitrary function), `<cmath>` calls, iostream state beyond
+  `operator<<` delegating to `to_chars_static`, allocator-backed `uintwide_t`, MSVC branches,
+  Boost.Multiprecision glue, the dead `_impl/duplex_integer` headers.
+'''
 FALSE_ALARMS = open(os.path.join(ROOT, 'tools', 'false_alarms.md')).read()
 
 def findings():
@@ -144,6 +164,7 @@ After these extensions every seeded change is caught by the quick check of its o
 ({len(seeded) - len(nofail)} with a concrete failing input; {len(nofail)} as a broken correspondence
 reported `no-failing-input-found`: {', '.join(sorted(nofail)) or 'none'}).
 '''
+    new += TRUSTED
     open(p, 'w').write(head + new)
 
 if __name__ == '__main__':
